@@ -487,15 +487,47 @@ class GenSource:
             return "view"
         return self.rng.choice(["handle", "handle", "view"])
 
+    def _slots_scenario(self, w):
+        """A 1-D array of strings whose slots differ in size, a second array of the same class whose
+        slots are the same sizes in another order (same total), emptied so that every item fits, then
+        first._update(second): item by item, the offsets of the first array's items stay what they were."""
+        rng = self.rng
+        sc = w.schema
+        cands = []
+        for o in w.live_objs():
+            ty = sc[o.t]
+            if ty["k"] == "array" and len(ty["shape"]) == 1 and sc[ty["item"]]["k"] == "str" and 2 <= len(o.node.items) <= 4:
+                caps = [x.cap for x in o.node.items]
+                if all(c is not None and c % 8 == 0 and c >= 8 for c in caps) and len(set(caps)) > 1:
+                    cands.append((o, caps))
+        if not cands:
+            return None
+        o, caps = rng.choice(cands)
+        perm = caps[1:] + caps[:1]
+        sid = self.new_id()
+        ops = [{"op": "construct", "type": o.t, "value": {"l": [{"s": "q" * (c - 1)} for c in perm], "shape": [len(perm)]}, "place": {"buf": o.bufid if rng.random() < 0.7 else pick_buf(w, rng), "how": "default"}, "form": "single", "id": sid}]
+        for i in range(len(perm)):
+            ops.append({"op": "set", "obj": sid, "path": [[i]], "value": {"s": rng.choice(["", "z", "zz"])}, "via": "handle"})
+        via = self._via(o)
+        if quarantined("set.whole_update_via_other_handle") and o.hnd is not None:
+            via = "handle"
+        ops.append({"op": "set", "obj": o.k, "path": [], "value": {"obj": sid}, "via": via})
+        return ops
+
     def set_compound(self, w):
         rng = self.rng
+        if rng.random() < 0.08 and not getattr(self, "pending", None):
+            sc_ = self._slots_scenario(w)
+            if sc_:
+                self.pending = sc_[1:]
+                return sc_[0]
         if rng.random() < 0.12:
             # the whole object is updated in place through a kept handle (obj._update(other)): a value of
             # the same total size is byte-copied, whatever its internal split of the dynamic fields
-            tops = [o for o in w.live_objs() if w.schema[o.t]["k"] == "struct" and not typegen.has_refs(w.schema, o.t)]
+            tops = [o for o in w.live_objs() if (w.schema[o.t]["k"] == "struct" or (w.schema[o.t]["k"] == "array" and w.schema[w.schema[o.t]["item"]]["k"] == "str")) and not typegen.has_refs(w.schema, o.t)]
             rng.shuffle(tops)
             for o in tops[:3]:
-                cands = [x for x in w.live_objs(o.t) if x.k != o.k]
+                cands = [x for x in w.live_objs(o.t) if x.k != o.k and (w.schema[o.t]["k"] == "struct" or _shape_compatible(w.schema, o.t, o.node, x.node))]
                 if cands:
                     via = self._via(o)
                     if quarantined("set.whole_update_via_other_handle") and o.hnd is not None:
@@ -1062,13 +1094,24 @@ class Step:
     def op_update_whole(self, o):
         """obj._update(other) on a whole top-level struct through the kept handle or a view."""
         w, op = self.w, self.op
-        if not (isinstance(op.get("value"), dict) and "obj" in op["value"]) or w.schema[o.t]["k"] != "struct" or typegen.has_refs(w.schema, o.t):
+        is_arr = w.schema[o.t]["k"] == "array" and w.schema[w.schema[o.t]["item"]]["k"] == "str"  # (struct items are byte-copied one by one when sizes agree: not modelled here)
+        if not (isinstance(op.get("value"), dict) and "obj" in op["value"]) or not (w.schema[o.t]["k"] == "struct" or is_arr) or typegen.has_refs(w.schema, o.t):
             raise Skip()
         src = self.get_obj(op["value"]["obj"])
         if src.t != o.t or src is o:
             raise Skip()
         same_size = self._extent(o) == self._extent(src) and self._extent(o) > 0
         fits = _shape_compatible(w.schema, o.t, o.node, src.node) and _same_caps(w.schema, o.t, o.node, src.node)
+        if is_arr:
+            # an array of dynamically sized items is updated item by item, every item inside the place
+            # and space it got at creation: only values whose items all fit are legitimate, and the
+            # array's own layout (offsets of the items) stays what it was
+            if not _shape_compatible(w.schema, o.t, o.node, src.node):
+                raise Skip()
+            same_size = False
+            if self._extent(o) == self._extent(src) and not fits:
+                self.res.probe("whole_array_update_same_size_other_slots")
+            fits = True
         if not (same_size or fits):
             raise Skip()  # may legitimately be refused
         if same_size and self._inner_referenced(o.t, o.node):
